@@ -113,6 +113,7 @@ def run(rep: Report, tier: str) -> None:
     def api_reachable(q: str) -> bool:
         return q in reach or q.startswith(("vtlengine.Operators.", "vtlengine.Interpreter.", "vtlengine.duckdb_transpiler.Transpiler.",
                                            "vtlengine.Utils.__Virtual_Assets.", "vtlengine.Exceptions.", "vtlengine.ViralPropagation."))
+    globalsx.report_shared_instances(P, rep, "R17.2", None, "a concurrent call reads the flags of the other call")
     nglob = 0
     for q, gvar in sorted(G.items()):
         writers = [w for w in list(gvar.writers) + list(gvar.mutators) if api_reachable(w)]
